@@ -336,6 +336,129 @@ pub fn check(case: &Case, st: &mut Stats) -> Result<(), String> {
 }
 
 // ---------------------------------------------------------------------------------------------
+// Part (a'): the same queue under real thread parallelism
+
+#[derive(Debug, Clone, Serialize, Deserialize, Hash)]
+pub struct QueueThreadsCase {
+    /// Blocks 0..blocks are requested, each by its own task.
+    blocks: u64,
+    /// Per peer: the range it announces (first, last), all within 0..blocks; the union covers every block.
+    peers: Vec<(u64, u64)>,
+    /// Every k-th hand-over fails (the handle is dropped) instead of completing; 0 = never.
+    fail_every: u8,
+    workers: u8,
+    reps: u16,
+}
+
+pub fn gen_queue_threads(ch: &mut Choices) -> QueueThreadsCase {
+    let blocks = 2 + ch.below(11) as u64;
+    let n = 2 + ch.below(3);
+    let mut peers: Vec<(u64, u64)> = (0..n)
+        .map(|_| {
+            let a = ch.below(blocks as usize) as u64;
+            let b = ch.below(blocks as usize) as u64;
+            (a.min(b), a.max(b))
+        })
+        .collect();
+    // somebody has everything, so that every request can be served
+    let k = ch.below(n);
+    peers[k] = (0, blocks - 1);
+    QueueThreadsCase { blocks, peers, fail_every: ch.pick(&[0u8, 2, 3, 5]), workers: ch.pick(&[2u8, 4, 8]), reps: 40 }
+}
+
+/// Oracle valid under every interleaving: a block is never held by two peers at once, it is handed only to a peer that announces
+/// it, and `request()` returns Ok only after some peer completed that very block. (A run that does not finish within a minute is
+/// reported as inconclusive, not as a violation.)
+pub fn check_queue_threads(case: &QueueThreadsCase, st: &mut Stats) -> Result<(), String> {
+    use std::sync::atomic::{AtomicBool, AtomicU32, AtomicU64, Ordering};
+    let rt = tokio::runtime::Builder::new_multi_thread().worker_threads(case.workers.clamp(2, 16) as usize).enable_all().build().map_err(|e| format!("INFRA: runtime: {e}"))?;
+    let mut verdict: Result<(), String> = Ok(());
+    for rep in 0..case.reps.max(1) {
+        let n = case.blocks as usize;
+        let q = Arc::new(FetchQueue::default());
+        let holders: Arc<Vec<AtomicU32>> = Arc::new((0..n).map(|_| AtomicU32::new(0)).collect());
+        let completed: Arc<Vec<AtomicBool>> = Arc::new((0..n).map(|_| AtomicBool::new(false)).collect());
+        let violation: Arc<Mutex<Option<String>>> = Arc::default();
+        let handovers = Arc::new(AtomicU64::new(0));
+        let r: Result<(), String> = rt.block_on(async {
+            // the scope is never dropped unfinished: a run that takes too long is cancelled through its context
+            let ctx = &ctx::root().with_timeout(zksync_concurrency::time::Duration::seconds(60));
+            let (q, holders, completed, violation, handovers) = (&q, &holders, &completed, &violation, &handovers);
+            let unserved = &AtomicU32::new(0);
+            let _ = scope::run!(ctx, |ctx, s| async move {
+                for (p, (first, last)) in case.peers.iter().copied().enumerate() {
+                    s.spawn_bg(async move {
+                        let (_send, mut recv) = sync::watch::channel(state(first, Some(last)));
+                        loop {
+                            let Ok(a) = q.accept_block(ctx, &mut recv).await else { return Ok(()) };
+                            let b = a.0 .0 as usize;
+                            if b >= n || (b as u64) < first || (b as u64) > last {
+                                *violation.lock().unwrap() = Some(format!("peer {p} announcing {first}..={last} was handed block {b}"));
+                            } else if holders[b].fetch_add(1, Ordering::SeqCst) != 0 {
+                                *violation.lock().unwrap() = Some(format!("block {b} is held by two peers at once"));
+                            }
+                            tokio::task::yield_now().await;
+                            let k = handovers.fetch_add(1, Ordering::SeqCst) + 1;
+                            if b < n {
+                                holders[b].fetch_sub(1, Ordering::SeqCst);
+                            }
+                            if case.fail_every != 0 && k % case.fail_every as u64 == 0 {
+                                drop(a); // failure: the request must become available again
+                            } else {
+                                if b < n {
+                                    completed[b].store(true, Ordering::SeqCst);
+                                }
+                                a.complete();
+                            }
+                        }
+                    });
+                }
+                let mut reqs = vec![];
+                for b in 0..n {
+                    reqs.push(s.spawn(async move {
+                        match q.request(ctx, BlockNumber(b as u64)).await {
+                            Ok(()) if !completed[b].load(Ordering::SeqCst) => {
+                                *violation.lock().unwrap() = Some(format!("request({b}) returned Ok although no peer has completed block {b}"));
+                            }
+                            Ok(()) => {}
+                            Err(_) => {
+                                unserved.fetch_add(1, Ordering::SeqCst);
+                            }
+                        }
+                        Ok::<(), ctx::Canceled>(())
+                    }));
+                }
+                for r in reqs {
+                    let _ = r.join(ctx).await;
+                }
+                Ok::<(), ctx::Canceled>(())
+            })
+            .await;
+            if unserved.load(Ordering::SeqCst) > 0 {
+                Err("INFRA: the requests were not all served within 60 s".to_string())
+            } else {
+                Ok(())
+            }
+        });
+        if let Some(v) = violation.lock().unwrap().take() {
+            verdict = Err(format!("repetition {rep}: {v}"));
+            break;
+        }
+        if let Err(e) = r {
+            verdict = Err(e);
+            break;
+        }
+    }
+    rt.shutdown_timeout(std::time::Duration::from_secs(5));
+    if case.fail_every != 0 {
+        st.class("some_handovers_fail");
+    }
+    st.nontrivial(common::fingerprint(case));
+    st.sample(|| serde_json::to_value(case).unwrap());
+    verdict
+}
+
+// ---------------------------------------------------------------------------------------------
 // Part (b): a real node (gossip state + block fetcher + per-connection handlers) fetching from real peer nodes whose
 // storage layer lies about some blocks
 
@@ -553,6 +676,9 @@ pub fn main(env: &Env) -> i32 {
         if part == "node" {
             return env.finish_replay(&path, common::replay_case::<NodeCase>(case, check_node));
         }
+        if part == "queue_threads" {
+            return env.finish_replay(&path, common::replay_case::<QueueThreadsCase>(case, check_queue_threads));
+        }
         return env.finish_replay(&path, common::replay_case::<Case>(case, check));
     }
     let mut parts: Vec<PartReport> = vec![];
@@ -568,6 +694,20 @@ pub fn main(env: &Env) -> i32 {
         || Choices::strategy(200).prop_map(|mut ch| gen_case(&mut ch)),
         check,
     ));
+    parts.extend(common::run_regress::<QueueThreadsCase>(env, "queue_threads", check_queue_threads));
+    {
+        let mut seq = env.clone_for_part();
+        seq.shards = 2;
+        parts.push(run_proptest(
+            &seq,
+            "queue_threads",
+            "the real fetch queue on a multi-thread runtime (2-8 workers): 2-12 blocks each requested by its own task, 2-4 peer tasks announcing generated ranges (one of them everything) that accept, then complete or - every 2nd / 3rd / 5th hand-over - drop the request; 40 repetitions per case; \
+             oracle valid under every interleaving: a block is never held by two peers at once, only a peer that announces a block is handed it, request() returns Ok only after that block was completed. Every case is non-trivial; a run that does not finish within 60 s is inconclusive",
+            PartOpts { cases: env.tier.pick(80, 2_000), max_shrink_iters: 20, samples: 2 },
+            || Choices::strategy(20).prop_map(|mut ch| gen_queue_threads(&mut ch)),
+            check_queue_threads,
+        ));
+    }
     parts.push(run_proptest(
         env,
         "node",
